@@ -7,7 +7,7 @@ META = {
             "types; M/size (one size field symbolic over its whole width) and M/value (all leaves symbolic) on "
             "command/response shapes, including faults in the final field / last byte.",
     "bounds": {
-        "quick": "TPM2B and nested structure types (seed-rotated half) lengths m..min(m+3,9); shapes of 12 "
+        "quick": "TPM2B and nested structure types (seed-rotated half) lengths m..min(m+3,9); synthetic nested types 0..8; shapes of 12 "
                  "seed-rotated command codes: every size field over its full width, all leaves over theirs",
         "thorough": "all structure types lengths 0..min(m+4,14); all command codes",
     },
